@@ -158,7 +158,7 @@ def forms_oracle(op, line, facts):
         if code_req and ("code/" + r["code"]) in live:
             bad.append((f"C05:code:{where}:form-code-alive-after-attempt", f"request {j} presented code {r['code']!r} (answer {a}); the code is still stored at the end"))
         # "burn them all": every nonce a response named is gone at the end, once the response reached the nonce check
-        if r["t"] == "response" and "state" in r and not r.get("unknownState") and r.get("vp"):
+        if r["t"] == "response" and "state" in r and not r.get("unknownState") and not r.get("wrongTenant") and r.get("vp"):
             for n in sorted({_pres_nonce(p) for p in r["vp"]} - {""}):
                 if ("vpnonce/" + n) in live:
                     bad.append((f"C05:vpnonce:{where}:form-nonce-alive-after-attempt", f"request {j} named nonce {n!r} (answer {a}); the nonce is still stored at the end"))
@@ -216,7 +216,7 @@ def forms_oracle(op, line, facts):
             for i in range(j):
                 q = reqs[i]
                 # an earlier response that reached the nonce check and named n (alone: consumed; among others: burn-all)
-                if q["t"] == "response" and "state" in q and not q.get("unknownState") and q.get("vp") and n in {_pres_nonce(p) for p in q["vp"]}:
+                if q["t"] == "response" and "state" in q and not q.get("unknownState") and not q.get("wrongTenant") and q.get("vp") and n in {_pres_nonce(p) for p in q["vp"]}:
                     bad.append((f"C05:vpnonce:{where}:form-honoured-after-earlier-attempt",
                                 f"request {j} was honoured with nonce {n!r} after request {i} (answer {ans[i]}) had named it"))
         elif r["t"] == "token" and r.get("grant") == "vp_token-bearer":
